@@ -670,3 +670,64 @@ def FITS_SIGNED(x: int, n: int) -> bool:
     if n <= 0:
         return x == 0
     return -(2 ** (8 * n - 1)) <= x and x < 2 ** (8 * n - 1)
+
+
+# ------------------------------------------------------------------ datetimes and timedeltas (C16, timestamps)
+@opaque
+def dt_aware(x: object) -> bool:
+    """the datetime carries a UTC offset"""
+    return x.tzinfo is not None and x.utcoffset() is not None
+
+
+@opaque
+def dt_offset_us(x: object) -> int:
+    """UTC offset of an aware datetime in microseconds (0 for a naive one)"""
+    import datetime as _d
+    o = x.utcoffset() if x.tzinfo is not None else None
+    return 0 if o is None else (o.days * 86400 + o.seconds) * 1000000 + o.microseconds
+
+
+@opaque
+def dt_us(x: object) -> int:
+    """microseconds from 0001-01-01T00:00:00: of the instant in UTC for an aware datetime, of the wall-clock reading
+    for a naive one"""
+    import datetime as _d
+    n = x.replace(tzinfo=None)
+    d = n - _d.datetime(1, 1, 1)
+    us = (d.days * 86400 + d.seconds) * 1000000 + d.microseconds
+    if x.tzinfo is not None and x.utcoffset() is not None:
+        o = x.utcoffset()
+        us -= (o.days * 86400 + o.seconds) * 1000000 + o.microseconds
+    return us
+
+
+@opaque
+def td_days(x: object) -> int:
+    return x.days
+
+
+@opaque
+def td_seconds(x: object) -> int:
+    return x.seconds
+
+
+@opaque
+def td_micros(x: object) -> int:
+    return x.microseconds
+
+
+@spec
+def is_timedelta(x: object) -> bool:
+    return is_lib(x, "datetime.timedelta")
+
+
+@spec
+def td_total_us(x: object) -> int:
+    """a timedelta is normalised: days any sign, 0 <= seconds < 86400, 0 <= microseconds < 1000000"""
+    return (td_days(x) * 86400 + td_seconds(x)) * 1000000 + td_micros(x)
+
+
+# 1970-01-01T00:00:00 counted from 0001-01-01T00:00:00, in microseconds (719162 days)
+EPOCH_US = 62135596800000000
+# 9999-12-31T23:59:59.999999
+MAX_DT_US = 315537897599999999
